@@ -30,6 +30,7 @@
  */
 #include "hcommon.h"
 #include "expected.h"
+#include <sys/wait.h>
 
 #if H_LEVEL == 0
 static const int lvl_blocks[REF_NPAT] = { 2, 1, 1, 1 };
@@ -79,6 +80,80 @@ aligns_for(int p, const int **al, int *nal) {
 }
 
 
+static void *
+h_shared(size_t size) {
+	void *m = mmap(NULL, size, PROT_READ | PROT_WRITE, MAP_SHARED | MAP_ANONYMOUS, -1, 0);
+	if (MAP_FAILED == m) {
+		fprintf(stderr, "mmap failed\n");
+		exit(2);
+	}
+	return (m);
+}
+
+/* Build S[n] = init + force + ONE update(M, n) for n = 0..L in a child process (results come back
+ * through shared memory).  0 = fine; -1 = the child reported an ASan error or died: the group is
+ * skipped and the finding is printed (by shard 0 / a replay only, every shard sees the same thing). */
+static int
+build_group(int ai, int v, int p, size_t L, const char *t_update, uint8_t **S, uint8_t *canon, size_t *clen) {
+	const halg_t *A = &halgs[ai];
+	int reporter = (0 == vh_shard || NULL != vh_only_target), st = 0, pz;
+	volatile size_t *cur_n = clen + L + 1;	/* spare slot: where the child is */
+	size_t n;
+	pid_t pid;
+
+	fflush(stdout);
+	pid = fork();
+	if (pid < 0) {
+		fprintf(stderr, "fork failed\n");
+		exit(2);
+	}
+	if (0 == pid) {
+		uint8_t *W = (uint8_t *)h_ctx_alloc(A->ctx_size);
+
+		if (!reporter && NULL == freopen("/dev/null", "w", stdout))
+			_exit(4);
+		vh_cur = vh_target_id(t_update);
+		vh_case_failed = 0;
+		for (n = 0; n <= L; n ++) {
+			void *base;
+			const uint8_t *src = h_src(ref_pat[p], n, 0, &base);
+
+			(*cur_n) = n;
+			vh_desc("pat=%d: representative state, init + one update of n=%zu bytes", p, n);
+			vh_publish_desc();
+			memset(W, 0x5A, A->ctx_size);
+			A->init(W);
+			A->force(W, A->vname[v]);
+			if (n)
+				A->update(W, src, n);
+			free(base);
+			clen[n] = h_canon(A, W, 0, canon + n * HCANON_MAX);
+			for (pz = 0; pz < 2; pz ++) {
+				h_poison(A, W, 0, h_poisons[pz]);
+				memcpy(S[pz] + n * A->ctx_size, W, A->ctx_size);
+			}
+		}
+		fflush(stdout);
+		_exit(vh_case_failed ? 3 : 0);
+	}
+	while (waitpid(pid, &st, 0) < 0)
+		;
+	if (WIFEXITED(st) && 0 == WEXITSTATUS(st))
+		return (0);
+	if (reporter && !(WIFEXITED(st) && 3 == WEXITSTATUS(st))) {
+		vh_cur = vh_target_id(t_update);
+		vh_desc("pat=%d: representative state, init + one update of n=%zu bytes", p, (size_t)(*cur_n));
+		vh_publish_desc();
+		vh_case_failed = 0;
+		if (WIFSIGNALED(st))
+			vh_fail("crash-in-single-update", "killed by signal %d", WTERMSIG(st));
+		else
+			vh_fail("crash-in-single-update", "child exit status %d", WEXITSTATUS(st));
+	}
+	return (-1);
+}
+
+
 int
 main(int argc, char **argv) {
 	int ai, v, p, pz, k, nal;
@@ -90,14 +165,14 @@ main(int argc, char **argv) {
 
 	vh_init(argc, argv);
 	h_common_init();
-	canon = (uint8_t *)malloc((lmax_all + 1) * HCANON_MAX);
-	clen = (size_t *)malloc((lmax_all + 1) * sizeof(size_t));
+	canon = (uint8_t *)h_shared((lmax_all + 1) * HCANON_MAX);
+	clen = (size_t *)h_shared((lmax_all + 2) * sizeof(size_t));
 
 	for (ai = 0; ai < HALG_COUNT; ai ++) {
 		const halg_t *A = &halgs[ai];
 
-		S[0] = (uint8_t *)malloc((lmax_all + 1) * A->ctx_size);
-		S[1] = (uint8_t *)malloc((lmax_all + 1) * A->ctx_size);
+		S[0] = (uint8_t *)h_shared((lmax_all + 1) * A->ctx_size);
+		S[1] = (uint8_t *)h_shared((lmax_all + 1) * A->ctx_size);
 		for (v = 0; v < A->nvar; v ++) {
 			const char *t_update = h_name(A->pfx, "_update", A->sfx, A->vname[v]);
 			const char *t_final = h_name(A->pfx, "_final", A->sfx, A->vname[v]);
@@ -108,27 +183,15 @@ main(int argc, char **argv) {
 				L = (size_t)lvl_blocks[p] * A->B + 1;
 				aligns_for(p, &al, &nal);
 
-				/* representatives S[n], their canonical form, and the two poisoned copies */
-				W = (uint8_t *)h_ctx_alloc(A->ctx_size);
-				for (n = 0; n <= L; n ++) {
-					void *base;
-					const uint8_t *src = h_src(M, n, 0, &base);
-
-					memset(W, 0x5A, A->ctx_size);
-					A->init(W);
-					A->force(W, A->vname[v]);
-					if (n)
-						A->update(W, src, n);
-					free(base);
-					clen[n] = h_canon(A, W, 0, canon + n * HCANON_MAX);
-					if (0 == vh_shard)
+				/* representatives S[n], their canonical form, and the two poisoned copies -
+				 * built in a forked child so that a crash in a plain single update is a finding
+				 * attributed to this group, not the death of the whole shard */
+				if (0 != build_group(ai, v, p, L, t_update, S, canon, clen))
+					continue;	/* identical in every shard: case numbering stays consistent */
+				if (0 == vh_shard) {
+					for (n = 0; n <= L; n ++)
 						h_state_seen(ai, canon + n * HCANON_MAX, clen[n], (uint64_t)p);
-					for (pz = 0; pz < 2; pz ++) {
-						h_poison(A, W, 0, h_poisons[pz]);
-						memcpy(S[pz] + n * A->ctx_size, W, A->ctx_size);
-					}
 				}
-				free(W);
 
 				/* final from every state */
 				for (n = 0; n <= L; n ++) {
@@ -137,6 +200,7 @@ main(int argc, char **argv) {
 					if (!vh_begin(t_final))
 						continue;
 					vh_desc("pat=%d L=%zu n=%zu", p, L, n);
+					vh_publish_desc();
 					expected(ai, p, n, want);
 					for (pz = 0; pz < 2; pz ++) {
 						size_t nw;
@@ -174,6 +238,7 @@ main(int argc, char **argv) {
 						if (!vh_begin(t_update))
 							continue;
 						vh_desc("pat=%d L=%zu n=%zu c=%zu", p, L, n, c);
+						vh_publish_desc();
 						W = (uint8_t *)h_ctx_alloc(A->ctx_size);
 						for (k = 0; k < nal; k ++) {
 							void *base;
@@ -224,6 +289,7 @@ main(int argc, char **argv) {
 
 					if (own_gd) {
 						vh_desc("pat=%d n=%zu", p, n);
+						vh_publish_desc();
 						expected(ai, p, n, want);
 						for (k = 0; k < nal; k ++) {
 							void *base;
@@ -254,6 +320,7 @@ main(int argc, char **argv) {
 						char whex[2 * 64 + 8];
 
 						vh_desc("pat=%d n=%zu", p, n);
+						vh_publish_desc();
 						expected(ai, p, n, want);
 						vh_hex(whex, sizeof(whex), want, A->hs);
 						for (k = 0; k < nal; k ++) {
@@ -282,8 +349,8 @@ main(int argc, char **argv) {
 				}
 			}
 		}
-		free(S[0]);
-		free(S[1]);
+		munmap(S[0], (lmax_all + 1) * A->ctx_size);
+		munmap(S[1], (lmax_all + 1) * A->ctx_size);
 	}
 	h_finish_model(0 == vh_shard && NULL == vh_only_target);
 	return (vh_finish());
